@@ -168,9 +168,13 @@ func (d *directory) answer(base string, scope int, filter string) []ldapEntry {
 			{"namingContexts", ncs},
 		}}}
 	case strings.EqualFold(filter, "(objectClass=domain)"):
+		// the search scope is honoured as a directory does: 0 the base entry alone, 1 its children, 2 the whole subtree
 		var out []ldapEntry
 		for _, h := range d.heads {
-			if h.dn == base || strings.HasSuffix(h.dn, ","+base) {
+			isBase := h.dn == base
+			below := strings.HasSuffix(h.dn, ","+base)
+			child := below && !strings.Contains(strings.TrimSuffix(h.dn, ","+base), ",")
+			if (scope == 0 && isBase) || (scope == 1 && child) || (scope >= 2 && (isBase || below)) {
 				out = append(out, headEntry(h))
 			}
 		}
